@@ -172,6 +172,10 @@ func (br *Reader) Read() (*sam.Record, error) {
 	}
 
 done:
+	if b.err != nil {
+		// The record's block is shorter than its own length fields say.
+		return nil, b.err
+	}
 	refs := int32(len(br.h.Refs()))
 	if refID != -1 {
 		if refID < -1 || refID >= refs {
